@@ -87,7 +87,7 @@ func (st *story) op(format string, a ...any) {
 	if strings.HasPrefix(line, "autota restart") && st.r.Chance(2, 3) {
 		// the new process exists for a while before its first refresh (middleware start-up,
 		// root priming) and validates with its start-up trust set
-		st.emit("autota boot")
+		st.emit("autota boot" + vlib.Pick(st.r, []string{"", "", "", " t", " t", " s", " st"}))
 		st.n++
 		st.alive = true
 		for i := st.r.Intn(3); i > 0; i-- {
@@ -641,6 +641,13 @@ func storyRollover(st *story) {
 		st.op("autota restart")
 	}
 	st.honest(0, 0)
+	// revocation is permanent: a month, a quarter, years later the record is still there
+	if r.Chance(2, 3) {
+		st.tick(vlib.Pick(r, []int64{d30 + 60, 45 * day, 100 * day, 400 * day, 1200 * day}))
+		st.honest(0, 0)
+		st.tick(12 * hour)
+		st.honest(0, 0)
+	}
 	// the root drops the revoked key; the stale configuration still lists it
 	if i := st.has(a); i >= 0 && r.Bool() {
 		st.zone = append(st.zone[:i:i], st.zone[i+1:]...)
@@ -870,7 +877,48 @@ func storyRideAlong(st *story) {
 func storyRevocationEvidence(st *story) {
 	r := st.r
 	sp := findSpecials()
-	switch r.Intn(3) {
+	switch r.Intn(4) {
+	case 3:
+		// the REVOKE form of K1 has the key tag of ANOTHER tracked key K2 (configured, or pending):
+		// the revocation, validly self-signed, is still a revocation
+		if len(sp.revTag) == 0 {
+			return
+		}
+		var p [3]int
+		for i := 0; i < 50; i++ {
+			p = vlib.Pick(r, sp.revTag)
+			if p[2] == 257 {
+				break
+			}
+		}
+		if p[2] != 257 {
+			return
+		}
+		k1, k2, k3 := p[0], p[1], st.mats[0]
+		if r.Bool() {
+			st.start([]kref{mk(k1, 257), mk(k2, 257)})
+		} else {
+			st.start([]kref{mk(k1, 257), mk(k3, 257)})
+			st.zone = append(st.zone, mk(k2, 257)) // K2 only pending
+		}
+		st.honest(0, 0)
+		if r.Bool() {
+			st.tick(31 * day)
+			st.honest(0, 0)
+		}
+		st.revokeKey0(k1)
+		// K2 first, K1' last in the answer: kskFetched[tag] is the REVOKE form
+		var set []kref
+		for _, k := range st.zone {
+			if k.id != k1 {
+				set = append(set, k)
+			}
+		}
+		set = append(set, mk(k1, 385))
+		st.run(set, append(st.activeSigners(), mk(k1, 385)), nil, "-", "-")
+		st.honest(0, 0)
+		st.op("autota restart")
+		st.honest(0, 0)
 	case 0:
 		// Missing, then revoked: K1 disappears from a validly signed set, later the root
 		// publishes K1+REVOKE, self-signed and co-signed
@@ -1040,7 +1088,7 @@ func gen(r0 *vlib.R, n int, tier string, emit func(string)) {
 			}
 		}
 	}
-	for _, wd := range []string{"start-corrupt", "start-zero"} {
+	for _, wd := range []string{"start-corrupt", "start-zero", "start-unreadable"} {
 		for _, route := range []string{"cold", "insecure"} {
 			for _, cd := range []string{"f", "t"} {
 				wrap(fmt.Sprintf("autota l3 %s %s %s", wd, route, cd))
